@@ -13,7 +13,14 @@ def run(ck):
     ck.extra["graph_edges"] = len(edges)
     ck.extra["walks"] = len(walks)
     hidden = {}
-    for backend, wi, si, e, step, case in kvlib.run_walks(ck, b, walks, keys, hashof, sigprefix="C17"):
+    ALT = {"a": "ff", "b": "00"}          # the letters of the key names stored as the extreme byte values
+    import itertools
+    sub = walks if ck.thorough or ck.replay is not None else walks[::2]
+    runs = itertools.chain(((None, x) for x in kvlib.run_walks(ck, b, walks, keys, hashof, sigprefix="C17")),
+                           ((ALT, x) for x in kvlib.run_walks(ck, b, sub, keys, hashof, sigprefix="C17", alphabet=ALT)))
+    for alpha, (backend, wi, si, e, step, case) in runs:
+        if alpha is not None and sub is not walks:
+            wi = wi * 2
         op = e["op"]
         if si == 0:
             hidden = {}      # keys whose last simple write was Put(k, empty)
